@@ -235,7 +235,8 @@ def reducerStep (E : Elem β) (inplace : Bool) (fold : Nat → Obs β → Option
     if s.2.initial then
       let res := fold c x none
       let ignored := match s.1.2 with | .init _ _ _ => false | _ => true
-      let rec0 := if ignored then (step E s.1 (.initz res.shape)).1 else s.1
+      -- `if self.data_.ignored: initialize(res.shape, fill) else: reset(fill)` (a cleared record kept its shape)
+      let rec0 := if ignored then (step E s.1 (.initz res.shape)).1 else (step E s.1 (.reset (some E.zero))).1
       let (rec1, o) := step E rec0 (.push res inplace)
       match o with
       | .err e => ((rec0, { s.2 with count := cnt }), .err e)
